@@ -8,6 +8,9 @@ Aggregator: the sub-checks live in two modules built on the declarative TL-B ref
 Oracle (both): a value generated and encoded by the reference model (+ a sentinel tail of extra bits and references) is parsed
 by the library; every schema field must be readable from the parsed object with the encoded value (unsigned stays unsigned) and
 the slice left after parsing must be exactly the sentinel tail.
+Two threads: two-threads-tx / two-threads-blk overlap whole random cases (core.overlapped); two-threads-tx-parsers /
+two-threads-blk-parsers (in the two modules) prepare 3 values per covered type x constructor as cells and let 4 threads parse them in
+tight loops at the same time (core.hammer) - a parser that collects fields in a place two calls share is inside its window there.
 VERIF_C16_PART=tx|blk restricts the import to one part (development aid).
 """
 import os
